@@ -145,6 +145,10 @@ theorem dsGetItem_eq (A : DArr) (ix : IndexArg) : dsGetItem A ix = readData A ix
   | one i => exact read_post _
   | tuple l => exact read_post _
 
+theorem dsArray_eq (A : DArr) : dsArray A = readData A .none := dsGetItem_eq A .none
+
+theorem dsReadDirect_eq (A : DArr) : dsReadDirect A = readData A .none := dsGetItem_eq A .none
+
 theorem dsLen_eq (A : DArr) : dsLen A = lenS A := by
   unfold dsLen lenS
   rw [dsShapeOf_eq]
